@@ -182,3 +182,77 @@ def tree_text(t):
     if j == "bool":
         return "true" if t["bv"] else "false"
     return "null"
+
+
+# ------------------------------------------------------------------------------------------------
+# C10
+# ------------------------------------------------------------------------------------------------
+RULE10 = ("TLC explores MC_SchemaJson (bounded grammar of schema JSON trees x irrelevant-edit actions: key order, doc, aliases,"
+          " defaults, custom attributes, order, logical types, namespace spellings inherited / explicit / dotted / explicitly"
+          " empty) and checks that the reference writer and reader of SchemaJson.tla are inverse (Meaning(Render(Meaning(t)))"
+          " = Meaning(t), NoDupKeys(Render(..))). Every explored tree [sampled in quick] plus seeded random deeper trees with"
+          " docs needing escapes, defaults of every JSON kind, attributes on every node kind and every logical type is run"
+          " through parse_str -> to_string -> parse_str -> to_string and through a container header on the real crate and"
+          " judged by Trace_SchemaRoundTrip.tla. Non-trivial = tree is not a bare primitive name; distinct = distinct tree hashes.")
+
+
+def run_c10(prop, tier, seed, replay=None):
+    rep = vf.Report(prop, tier, seed)
+    vf.build_harness()
+    work = vf.fresh_workdir(f"{prop}-{tier}")
+    if replay:
+        payload = json.loads(Path(replay).read_text())["payload"]
+        scns = [json.dumps(payload["scenario"])]
+    else:
+        one = mc_scenarios(work, rep, "MC_SchemaJson_quick.cfg")
+        if tier == "quick":
+            scns = sample_evenly(one, 800)
+            nfam, depth = 150, 3
+        else:
+            two = mc_scenarios(work, rep, "MC_SchemaJson_thorough.cfg", timeout=2400)
+            first = set(one)
+            scns = one + sample_evenly([s for s in two if s not in first], 3000)
+            nfam, depth = 1500, 5
+        check_edit_coverage(scns)
+        # a C10 scenario is a single tree: the edited tree of each explored state
+        scns = sorted({json.dumps({"t": json.loads(s)["t"], "edits": json.loads(s)["edits"]}, sort_keys=True) for s in scns})
+        rnd = work / "rand.scn.ndjson"
+        run_bin("avh_c10", ["gen", "--seed", seed, "--count", nfam, "--depth", depth, "--out", rnd])
+        scns += lines_of(rnd)
+        rep.cov["exhaustive"] = False
+    scn_file = work / "all.scn.ndjson"
+    scn_file.write_text("\n".join(scns) + "\n")
+    ev_file = work / "events.ndjson"
+    run_bin("avh_c10", ["run", "--scn", scn_file, "--out", ev_file])
+    events = lines_of(ev_file)
+    if len(events) != len(scns):
+        raise vf.ToolError(f"harness recorded {len(events)} events for {len(scns)} scenarios")
+    accepted = sum(1 for l in events if json.loads(l)["parse_ok"])
+    if accepted * 10 < len(events) * 9:
+        raise vf.ToolError(f"only {accepted} of {len(events)} generated schemas were accepted by the parser (generator drifted)")
+    njobs = 4
+    order = sorted(range(len(events)), key=lambda i: (i % njobs, i))
+    t0 = time.time()
+    verdicts, st, tr = vf.judge_events(work, "Trace_SchemaRoundTrip.tla", "Trace_SchemaRoundTrip.cfg", [events[i] for i in order],
+                                       chunk=len(events) // njobs + 1, jobs=njobs, timeout=2400)
+    vf.log(f"judged {len(events)} round-trip events in {time.time() - t0:.0f}s")
+    rep.add_states(st, tr)
+    parsed = [json.loads(s) for s in scns]
+
+    def replay_of(i):
+        ev = json.loads(events[i])
+        return {"kind": "srt", "scenario": parsed[i], "event": {k: ev[k] for k in ev if k not in ("t",)}}
+
+    rep.classify(verdicts, replay_of)
+    rep.cov["distinct_nontrivial"] = vf.distinct_hashes([p["t"] for p in parsed if p["t"].get("j") != "str"])
+    for p in parsed[:1] + parsed[len(parsed) // 2: len(parsed) // 2 + 1] + parsed[-1:]:
+        rep.sample({"edits": p.get("edits", []), "text": tree_text(p["t"])[:400]})
+    rep.cov["traces_validated_against_impl"] = len(events)
+    rep.cov["evaluations"] = len(events)
+    rep.cov["rule"] = RULE10
+    rep.assumptions += [
+        "spec/SchemaJson.tla Meaning (reference schema reader written from the specification's Names / Aliases / Logical Types sections) is the oracle; that a strict-JSON writer inverse to it exists is model-checked (RoundTripSatisfiable)",
+        "the harness' projection of apache_avro::Schema to an M-term (harness/src/bin/avh_c10.rs proj) and its duplicate-preserving JSON scanner are trusted; the container header's avro.schema entry is extracted by 30 lines of format reading in the harness",
+        "grey zones, reported as drift only: attributes on the object form of a primitive and ignored logicalType keys have no place in the crate's data model",
+    ]
+    return rep.finish()
